@@ -94,10 +94,79 @@ func coord(r *vproto.Rng, allowNonFinite bool) float64 {
 	}
 }
 
+// decSpecials: doubles 1..3 ulps away from the double nearest a short decimal (round h): a formatter that
+// decides "v has at most d decimals" in floating point prints the short decimal, which reads back as the neighbour
+var decSpecials = []float64{
+	math.Nextafter(12.34579, math.Inf(1)), 0.00021799999999999999, math.Nextafter(0.000218, 1), math.Nextafter(12.34579, 0),
+	math.Nextafter(179.123456, math.Inf(1)), math.Nextafter(-89.5, 0), math.Nextafter(0.1, 1), math.Nextafter(0.1, 0),
+	math.Nextafter(1234.5, math.Inf(1)), math.Nextafter(99999.999999, 0), math.Nextafter(2.5e-4, 1), math.Nextafter(1e3, 0),
+	math.Nextafter(1e15, math.Inf(1)), math.Nextafter(123456789.123, 0), math.Nextafter(4.35, 0), math.Nextafter(1.005, 9),
+}
+
+// decNeighbour: the double nearest k/10^d (d in 1..17) or k*10^e (e in 0..4), k of 1..17 digits, moved by
+// 0, ±1, ±2 or ±3 ulps (±1 half of the time), either sign.  Such values come out of arithmetic on "round"
+// numbers (sums, midpoints, projections of lon/lat with a few decimals) and need 16–17 significant digits.
+func decNeighbour(r *vproto.Rng) float64 {
+	nd := r.Range(1, 17)
+	k := uint64(r.Range(1, 9))
+	for i := 1; i < nd; i++ {
+		k = k*10 + uint64(r.Intn(10))
+	}
+	var e int
+	switch r.Intn(8) {
+	case 0:
+		e = r.Range(0, 4)
+	case 1, 2, 3:
+		e = -r.Range(1, 6) // the everyday case: up to six decimals
+	default:
+		e = -r.Range(1, 17)
+	}
+	if r.Intn(3) > 0 && e < 0 && nd > -e+3 {
+		// keep most magnitudes in the coordinate range (|v| < 1e3..1e6): drop leading digits
+		m := uint64(1)
+		for i := 0; i < -e+r.Range(0, 6); i++ {
+			m *= 10
+		}
+		if k%m != 0 {
+			k %= m
+		}
+	}
+	f, err := strconv.ParseFloat(fmt.Sprintf("%de%d", k, e), 64) // correctly rounded
+	if err != nil {
+		return 1
+	}
+	steps := []int{1, -1, 1, -1, 2, -2, 3, -3, 0, 1, -1}[r.Intn(11)]
+	for ; steps > 0; steps-- {
+		f = math.Nextafter(f, math.Inf(1))
+	}
+	for ; steps < 0; steps++ {
+		f = math.Nextafter(f, 0)
+	}
+	if r.Bool() {
+		f = -f
+	}
+	return f
+}
+
 type cfg struct {
 	emptyMember bool // allow members without vertices / zero member counts
 	nonFinite   bool
 	big         bool
+	dec         bool // coordinates are decimal neighbours (4 of 5) or decSpecials
+}
+
+func (c cfg) co(r *vproto.Rng) float64 {
+	if c.dec {
+		switch r.Intn(10) {
+		case 0:
+			return coord(r, c.nonFinite)
+		case 1:
+			return decSpecials[r.Intn(len(decSpecials))]
+		default:
+			return decNeighbour(r)
+		}
+	}
+	return coord(r, c.nonFinite)
 }
 
 func (c cfg) count(r *vproto.Rng, hi int) int {
@@ -122,7 +191,7 @@ func (c cfg) pts(r *vproto.Rng) []geom.Point {
 	n := c.count(r, 6)
 	p := make([]geom.Point, n)
 	for i := range p {
-		p[i] = geom.Point{X: coord(r, c.nonFinite), Y: coord(r, c.nonFinite)}
+		p[i] = geom.Point{X: c.co(r), Y: c.co(r)}
 	}
 	return p
 }
@@ -139,7 +208,7 @@ func (c cfg) ptss(r *vproto.Rng) []geom.Path {
 func (c cfg) geom(r *vproto.Rng, k int) geom.Geom {
 	switch k {
 	case 0:
-		return geom.Point{X: coord(r, c.nonFinite), Y: coord(r, c.nonFinite)}
+		return geom.Point{X: c.co(r), Y: c.co(r)}
 	case 1:
 		return geom.LineString(c.pts(r))
 	case 2:
@@ -479,6 +548,21 @@ func gen(seed uint64, tier string) {
 	}
 	for i := 0; i < ndup; i++ {
 		emit(withDup(r, 1+r.Intn(4)))
+	}
+	// round h: decimal neighbours (doubles 1..3 ulps around the double nearest k/10^d, k*10^e) in every supported
+	// type and position; fixed corpus first
+	for _, x := range decSpecials {
+		emit(P(x, -x))
+		emit(geom.LineString{P(1, x), P(x, 2)})
+		emit(geom.MultiPolygon{{{P(0, 0), P(x, 0), P(-x, x), P(0, 0)}}, {{P(5, x)}}})
+	}
+	ndec := 500
+	if tier == "thorough" {
+		ndec = 8000
+	}
+	dec := cfg{dec: true}
+	for i := 0; i < ndec; i++ {
+		emit(dec.geom(r, i%5))
 	}
 }
 
